@@ -160,10 +160,13 @@ def doCall (st : DSt) (c : WCall) : IO (DSt × Bool) := do
     let gS := match slot with | some s => fmtSockSpec (r.world.get s) (specGet sp s) | none => "-"
     let n := match newSlot with | some s => if created then fmtSock (r.world.get s) else "-" | none => "-"
     let nS := match newSlot with | some s => if created then fmtSockSpec (r.world.get s) (specGet sp s) else "-" | none => "-"
+    let adopt := match c with | .newFromFd .. => true | _ => false    -- a descriptor handed in by the caller is his business
     let cx := match r.out.sock with
-      | some ns => toString (b2i (cloexecAfter ns.fd r.tr false))
+      | some ns => if adopt then "-" else toString (b2i (cloexecAfter ns.fd r.tr false))
       | none => "-"
-    let cxS := if created then "1" else "-"
+    let cxS := match r.out.sock with
+      | some ns => if fcntlFdOk ns.fd r.tr && !adopt then "1" else cx     -- spec: close-on-exec, given fcntl on the fresh fd works
+      | none => "-"
     let ns := allSendsNoSignal r.tr
     let nsS := if ns = "0" then "1" else ns
     let line := fmtLine { out := r.out, tr := r.tr, left := r.rest.length, g := g, n := n, cx := cx, ns := ns }
